@@ -434,6 +434,9 @@ func New(ctx context.Context, next http.Handler, config *Config, name string) (h
 		tmpl, err := template.New(header.Name).Parse(header.Value)
 		if err != nil {
 			logger.Errorf("Failed to parse header template for %s: %v", header.Name, err)
+			// Keep the name registered (without a template): the header is never rendered, and a value
+			// supplied by the client under this configured name is still removed before forwarding.
+			t.headerTemplates[header.Name] = nil
 			continue
 		}
 		t.headerTemplates[header.Name] = tmpl
@@ -838,6 +841,9 @@ func (t *TraefikOidc) processAuthorizedRequest(rw http.ResponseWriter, req *http
 
 			// Execute each template and set the resulting header
 			for headerName, tmpl := range t.headerTemplates {
+				if tmpl == nil {
+					continue // template failed to parse at start-up
+				}
 				var buf bytes.Buffer
 				if err := tmpl.Execute(&buf, templateData); err != nil {
 					t.logger.Errorf("Failed to execute template for header %s: %v", headerName, err)
